@@ -4,6 +4,18 @@ import json, os, sys
 here = os.path.dirname(os.path.dirname(os.path.abspath(__file__)))
 
 CHECKS = {
+ "C06": dict(level="exploration", design="4/C06",
+   technique="deviation-bounded exhaustive enumeration over (key, COUNT, bearer, direction, bit length, pattern) against an independent 128-EEA1/2/3 reference + exhaustive component comparison (all S-box/alpha table entries, lane sweeps of S1/S2/L1/L2, lock-step internal state) through verif hooks",
+   text="NEA1/2/3 and NASEncrypt are compared bit for bit with a reference written from the SAGE/ETSI specifications (S-boxes derived algebraically, validated on all published vectors) over every bit length 0..320, all 32x2 bearer/direction pairs, structured key/COUNT alphabets including every single-bit key and COUNT, the full COUNT x bearer x direction grid, and (thorough) all key x COUNT pairs and long inputs.",
+   note="Trusted: refcrypto (validated at setup on the published UEA2/UIA2, 128-EEA2/EIA2, EEA3/EIA3 and RFC 4493 vectors), crypto/aes block encryption. Key/COUNT spaces are covered by alphabets, not completely."),
+ "C07": dict(level="exploration", design="4/C07",
+   technique="deviation-bounded exhaustive enumeration over (key, COUNT, bearer, direction, message bit length, single-bit messages) against an independent 128-EIA1/2/3 reference + exhaustive GF(2^64) multiply / window-extraction component checks through verif hooks",
+   text="NIA1/2/3 and NASMacCalculate are compared with reference UIA2 (FRESH = bearer<<27), AES-CMAC (re-implemented from RFC 4493) and EIA3 over every message length 1..320 bits (octets for NIA2), single-bit messages at every position < 256, all bearer/direction pairs and the structured key/COUNT alphabets and grids of C06.",
+   note="Trusted: refcrypto (see C06). Pad bits of the last octet are zero; L=0 is only covered by C08's no-panic law."),
+ "C08": dict(level="exploration", design="4/C08",
+   technique="exhaustive enumeration of all 2^24 (algorithm, bearer, direction) triples through both wrappers + every payload length on all valid triples, algebraic law oracles (involution, prefix stability, keystream independence, NULL algorithms, validation leaves arguments untouched)",
+   text="Every (algorithm 0..255, bearer 0..255, direction 0..255) triple is executed through NASEncrypt and NASMacCalculate with empty, short and nil payloads; on every valid triple every payload length 0..80 (300 thorough) is checked for the stated laws, with keys/counts from the deviation alphabets.",
+   note="Trusted: nothing beyond the laws themselves (no reference needed)."),
  "C01": dict(level="model_checking", design="4.0, 4/C01",
    technique="grammar-state exploration (token trie over the pinned TS 24.501 tables, every prefix) executed on the real decoders + exhaustive 2^24 three-octet headers; panic/termination/allocation oracle in isolated worker processes",
    text="Every state of the message-grammar explorer (message x mandatory-part choice x optional-token sequence up to the stated depth, every declared length of every length field, every truncation point, 70 000-octet inputs) is rendered and executed through PlainNasDecode, Gmm/GsmMessageDecode and Decode<Msg>; all 2^24 three-octet and all shorter inputs are executed too. A worker watchdog turns hangs and heap blow-ups into violations; allocation is metered with ReadMemStats against 32n+2*65535+16KiB bytes / 4n+64 objects.",
@@ -84,6 +96,6 @@ def main():
     json.dump(man, open(os.path.join(here, "MANIFEST.json"), "w"), indent=1)
     print("MANIFEST.json:", len(checks), "checks,", len(na), "not claimed")
 
-HOOK_COMMITS = []
+HOOK_COMMITS = ["4c169a7"]
 if __name__ == "__main__":
     main()
